@@ -76,11 +76,17 @@ type Case struct {
 	// optional children of the reference EncryptedKey's EncryptionMethod, varied independently of each other:
 	// RefMGF (xmlenc11 rsa-oaep): "" = named after the digest unless RefDefaultMGF | omit (element absent = mgf1sha1) | sha1 | sha224 | sha256 | sha384 | sha512 (explicit element)
 	// RefOAEPParams: "" = element absent | empty (<OAEPparams/>, the same null label) | label (a non-empty label: don't-care, the property is silent)
-	RefMGF        string `json:"ref_mgf,omitempty"`
-	RefOAEPParams string `json:"ref_oaep_params,omitempty"`
-	RefDefaultMGF bool   `json:"ref_default_mgf,omitempty"` // xmlenc11 rsa-oaep: no xenc11:MGF element, mask function = the W3C default MGF1-SHA-1
-	RefStdURI     bool   `json:"ref_std_uri,omitempty"`     // spell SHA-256/512/RIPEMD-160 with the W3C xmlenc# identifiers (don't-care: not in the package's registry)
-	Marker        string `json:"marker,omitempty"`          // idp2ref / ref2sp: the NameID that must come out
+	// other legal ds:KeyInfo children (keyname | retrieval | x509data | keyvalue | foreign) before / after the
+	// EncryptedKey inside EncryptedData/KeyInfo, and before / after the X509Data inside the EncryptedKey's own KeyInfo
+	RefKIBefore    []string `json:"ref_ki_before,omitempty"`
+	RefKIAfter     []string `json:"ref_ki_after,omitempty"`
+	RefKeyKIBefore []string `json:"ref_key_ki_before,omitempty"`
+	RefKeyKIAfter  []string `json:"ref_key_ki_after,omitempty"`
+	RefMGF         string   `json:"ref_mgf,omitempty"`
+	RefOAEPParams  string   `json:"ref_oaep_params,omitempty"`
+	RefDefaultMGF  bool     `json:"ref_default_mgf,omitempty"` // xmlenc11 rsa-oaep: no xenc11:MGF element, mask function = the W3C default MGF1-SHA-1
+	RefStdURI      bool     `json:"ref_std_uri,omitempty"`     // spell SHA-256/512/RIPEMD-160 with the W3C xmlenc# identifiers (don't-care: not in the package's registry)
+	Marker         string   `json:"marker,omitempty"`          // idp2ref / ref2sp: the NameID that must come out
 }
 
 // ---------------------------------------------------------------- tables
@@ -435,6 +441,19 @@ func (c Case) refOptions() refenc.Options {
 		BlockAlg: blockURI(c.Block), IV: c.IV, ContentKey: c.Key, PadFiller: c.Filler,
 		Rand: newStream(c.Seed, "ref"), EmbedCert: c.RefEmbedCert, WrapBase64: c.RefWrap, Sibling: c.RefSibling,
 		ID: "_ref-data", KeyID: "_ref-key", Extras: c.RefExtras, KeyIDRef: c.RefKeyRef && c.RefSibling,
+		DataKIBefore: c.RefKIBefore, DataKIAfter: c.RefKIAfter, KeyKIBefore: c.RefKeyKIBefore, KeyKIAfter: c.RefKeyKIAfter,
+	}
+	if c.Transport == "direct" {
+		// no EncryptedKey exists: a RetrievalMethod pointing at one would dangle, which is not a conformant document
+		keep := func(l []string) (out []string) {
+			for _, k := range l {
+				if k != "retrieval" {
+					out = append(out, k)
+				}
+			}
+			return out
+		}
+		o.DataKIBefore, o.DataKIAfter, o.KeyKIBefore, o.KeyKIAfter = keep(o.DataKIBefore), keep(o.DataKIAfter), nil, nil
 	}
 	switch c.RefPrefix {
 	case "default":
@@ -616,6 +635,15 @@ func classes(c Case) []string {
 		if c.RefKeyRef && c.RefSibling {
 			cl = append(cl, "ref:retrieval-method")
 		}
+		for _, k := range c.RefKIBefore {
+			cl = append(cl, "ref:keyinfo-"+k+"-before-encryptedkey")
+		}
+		for _, k := range c.RefKIAfter {
+			cl = append(cl, "ref:keyinfo-"+k+"-after-encryptedkey")
+		}
+		if len(c.RefKeyKIBefore)+len(c.RefKeyKIAfter) > 0 {
+			cl = append(cl, "ref:extra-children-in-encryptedkey-keyinfo")
+		}
 	}
 	if c.PtrDigest {
 		cl = append(cl, "pkg:pointer-digest")
@@ -662,6 +690,16 @@ func wellFormed(c Case) bool {
 	case "", "omit", "sha1", "sha224", "sha256", "sha384", "sha512":
 	default:
 		return false
+	}
+	for _, l := range [][]string{c.RefKIBefore, c.RefKIAfter, c.RefKeyKIBefore, c.RefKeyKIAfter} {
+		if len(l) > 5 {
+			return false
+		}
+		for _, k := range l {
+			if k != "keyname" && k != "retrieval" && k != "x509data" && k != "keyvalue" && k != "foreign" {
+				return false
+			}
+		}
 	}
 	switch c.RefOAEPParams {
 	case "", "empty", "label":
@@ -1118,6 +1156,8 @@ func checkSP(c Case, ok pbt.Result) pbt.Result {
 
 // ---------------------------------------------------------------- generator
 
+var kiKindList = []string{"keyname", "retrieval", "x509data", "keyvalue", "foreign"}
+
 func blockSize(b string) int {
 	if b == "tripledes-cbc" {
 		return 8
@@ -1263,6 +1303,15 @@ func genOne(t *rapid.T, dir string, seqStep bool) Case {
 			c.RefWrap = rapid.SampledFrom([]int{64, 76, 4}).Draw(t, "wrap-len")
 		}
 		c.RefPrefix = rapid.SampledFrom([]string{"", "", "default", "other", "dsdefault", "bothdefault"}).Draw(t, "prefix")
+		kiKinds := rapid.SampledFrom(kiKindList)
+		if rapid.IntRange(0, 2).Draw(t, "ki-extras") == 0 {
+			c.RefKIBefore = rapid.SliceOfN(kiKinds, 0, 2).Draw(t, "ki-before")
+			c.RefKIAfter = rapid.SliceOfN(kiKinds, 0, 2).Draw(t, "ki-after")
+		}
+		if c.Transport != "direct" && rapid.IntRange(0, 3).Draw(t, "key-ki-extras") == 0 {
+			c.RefKeyKIBefore = rapid.SliceOfN(kiKinds, 0, 2).Draw(t, "key-ki-before")
+			c.RefKeyKIAfter = rapid.SliceOfN(kiKinds, 0, 2).Draw(t, "key-ki-after")
+		}
 		c.RefExtras = rapid.IntRange(0, 2).Draw(t, "extras") == 0
 		c.RefIndent = rapid.IntRange(0, 2).Draw(t, "indent") == 0
 		if c.Dir == "ref2sp" {
@@ -1336,6 +1385,23 @@ func enumLengths(block string, rsaKeys []string) func(string, func(Case)) {
 								c.RefOAEPParams = "empty"
 							}
 							c.RefPrefix = []string{"", "default", "other", "dsdefault", "bothdefault"}[n%5]
+							// every kind once before and once after the EncryptedKey (and in its own KeyInfo) per sweep
+							switch k := kiKindList[n%5]; (n / 5) % 6 {
+							case 1:
+								c.RefKIBefore = []string{k}
+							case 2:
+								c.RefKIAfter = []string{k}
+							case 3:
+								if cb.transport != "direct" {
+									c.RefKeyKIBefore = []string{k}
+								}
+							case 4:
+								if cb.transport != "direct" {
+									c.RefKeyKIAfter = []string{k}
+								}
+							case 5:
+								c.RefKIBefore, c.RefKIAfter = []string{k, kiKindList[(n+2)%5]}, []string{kiKindList[(n+1)%5]}
+							}
 							c.RefExtras = n%5 == 1
 							c.RefIndent = n%7 == 2
 						} else {
@@ -1420,7 +1486,7 @@ func enums() []pbt.Enum[Case] {
 
 var prop = &pbt.Prop[Case]{
 	ID: "C10",
-	Rule: "cases: one direction {self, pkg->ref, ref->pkg, IdP->ref, ref->SP}, or a sequence of 2-6 self / ref->pkg operations (same or mixed ciphers, later plaintexts shorter, equal or longer) whose results are ALL held and compared only after the last operation, with the caller-owned key / nonce / plaintext buffers and the element overwritten after every call; x block cipher {AES-128/192/256-CBC, 3DES-CBC, AES-128-GCM} x key transport {direct, rsa-oaep-mgf1p with SHA-1/256/512/RIPEMD-160/constructor default, xmlenc11 rsa-oaep via OAEP_SHA256/OAEP_SHA512/SHA-1, PKCS#1 v1.5} x recipient RSA-1024/2048/3072/4096 x plaintext (length 0..4 blocks+1 exhaustively for every combination and direction, block multiples +-1 up to 80 blocks, random up to 4 KiB quick / 64 KiB thorough; zero, 0xFF, pseudo-random, XML and ASCII contents, padding-lookalike tails) x supplied (GCM: 12 octets; CBC: 0..5 blocks, in particular longer than a block) or library-generated nonce; reference side with arbitrary padding filler, optional embedded certificate, omitted ds:DigestMethod (= SHA-1), wrapped base64, pretty printing, other namespace prefixes / default namespace, the optional schema parts without key material (KeySize, Recipient, KeyName, CarriedKeyName, EncryptionProperties), nested/sibling EncryptedKey with or without RetrievalMethod. " +
+	Rule: "cases: one direction {self, pkg->ref, ref->pkg, IdP->ref, ref->SP}, or a sequence of 2-6 self / ref->pkg operations (same or mixed ciphers, later plaintexts shorter, equal or longer) whose results are ALL held and compared only after the last operation, with the caller-owned key / nonce / plaintext buffers and the element overwritten after every call; x block cipher {AES-128/192/256-CBC, 3DES-CBC, AES-128-GCM} x key transport {direct, rsa-oaep-mgf1p with SHA-1/256/512/RIPEMD-160/constructor default, xmlenc11 rsa-oaep via OAEP_SHA256/OAEP_SHA512/SHA-1, PKCS#1 v1.5} x recipient RSA-1024/2048/3072/4096 x plaintext (length 0..4 blocks+1 exhaustively for every combination and direction, block multiples +-1 up to 80 blocks, random up to 4 KiB quick / 64 KiB thorough; zero, 0xFF, pseudo-random, XML and ASCII contents, padding-lookalike tails) x supplied (GCM: 12 octets; CBC: 0..5 blocks, in particular longer than a block) or library-generated nonce; reference side with arbitrary padding filler, optional embedded certificate, omitted ds:DigestMethod (= SHA-1), wrapped base64, pretty printing, other namespace prefixes / default namespace, the optional schema parts without key material (KeySize, Recipient, KeyName, CarriedKeyName, EncryptionProperties), other legal ds:KeyInfo children (KeyName, RetrievalMethod, X509Data, KeyValue, foreign elements) before and after the EncryptedKey and inside the EncryptedKey's own KeyInfo, nested/sibling EncryptedKey with or without RetrievalMethod. " +
 		"non-trivial: every judged case (each is a distinct (direction, algorithm, transport, digest, key, length, contents) tuple). distinct: sha256 of the JSON case.",
 	Gen:   gen,
 	Check: check,
